@@ -85,7 +85,7 @@ RULE = (
     "with >= 2 features."
 )
 FLOOR = {"quick": 12000, "thorough": 60000}
-REQUIRED_MONITORS = [
+REQUIRED_MONITORS = ["merge.operands-unchanged", 
     "extract.priority", "extract.order-independent", "extract.note-fallback", "extract.lookalike-ignored", "extract.exact-match",
     "types.complete", "types.exact", "merge.union-sorted", "merge.order-independent", "filtersort.order-independent",
     "filtersort.values-sorted", "ivmerge.union", "ivmerge.export-sorted", "gbk.permutation-invariant", "gbk.one-gene-per-locus-tag",
@@ -278,6 +278,7 @@ AMBIGUOUS_SHAPES = [
 ]
 DISTRACTORS = ["source", "misc_feature", "misc_feature-tagged", "regulatory"]
 TAGS = ["LT1", "LT10", "LT2", "LT1_a", "A0", "b0", "LT"]
+TWIN_TAGS = [["b1", "b01", "b001"], ["g0", "g00"], ["LT7", "lt7", "Lt7"], ["x9", "x09", "X9"], ["t1_2", "t01_2", "t1_02"]]
 GENOME = 600
 
 
@@ -306,6 +307,11 @@ def gen_record(rng, nfeat, ambiguous):
     """-> list of [type, blocks, strand, qualifiers(list of [key, values])] in canonical (coordinate, gene->mRNA->CDS) order."""
     feats = []
     tags = rng.sample(TAGS, len(TAGS))
+    if rng.random() < 0.35:
+        # locus tags that are twins under a non-injective ordering (leading zeros, case, a trailing blank-like suffix): distinct tags
+        # are distinct genes whatever ordering the grouping uses, and whatever the order of the records
+        fam = rng.choice(TWIN_TAGS)
+        tags = tags[:2] + rng.sample(fam, min(len(fam), rng.choice([2, 2, 3])))
     budget = nfeat
     anchor = None
     first = True
@@ -525,7 +531,16 @@ def run_merge(case, ctx):
     ctx.note(("merge", tuple(sorted(da)), tuple(sorted(db)), tuple(len(v) for v in da.values()), tuple(len(v) for v in db.values())),
              nontrivial=bool(shared), klass="merge-shared-key" if shared else "merge-disjoint")
     want = ref_merge(da, db)
-    got, exc = ctx.call(merge_qualifiers, dict(da), dict(db))
+    import copy
+
+    pa, pb = copy.deepcopy(da), copy.deepcopy(db)
+    got, exc = ctx.call(merge_qualifiers, pa, pb)
+    ctx.check("merge.operands-unchanged", pa == da and pb == db and all(pa[k] == da[k] for k in da) and all(pb[k] == db[k] for k in db),
+              key=("merge", "first" if pa != da else "second"), a=a, b=b, a_after=pa, b_after=pb)
+    if exc is None and isinstance(got, dict):
+        # ... and the result does not share its value lists with an operand (a later edit of the result must not edit the input)
+        alias = [k for k in got if any(got[k] is src.get(k) for src in (pa, pb))]
+        ctx.check("merge.operands-unchanged", not alias, key=("merge", "result-aliases-operand-values"), a=a, b=b, keys=alias)
     okv = exc is None and isinstance(got, dict) and got == want and all(isinstance(v, list) for v in got.values())
     why = None
     if not okv and exc is None and isinstance(got, dict):
